@@ -51,7 +51,11 @@ struct ACallbackList {
 	static void add(T & o, int id) { o.append(Fn(id)); }
 	static bool removeAt(T & o, int pos) { typename T::Handle h; int i = 0; o.forEach([&](const typename T::Handle & hh, const typename T::Callback &) { if(i++ == pos) h = hh; }); return o.remove(h); }
 	static void trigger(T & o, int v) { o(v); }
+#ifndef VERIF_NO_PRIVATE
 	static void preset(T & o, unsigned v) { o.currentCounter.store(v); }
+#else
+	static void preset(T &, unsigned) {}
+#endif
 	static bool hasAny(T & o) { return !o.empty(); }
 };
 template <typename Th>
